@@ -32,12 +32,16 @@ let dec_row (s : Stdlib.String.t) : row =
   | _ -> failwith "bad row"
 let dec_rows (s : Stdlib.String.t) : row list = List.map dec_row (split_sep '|' s)
 
-let enc_fmap (fm : (ascii list * (ascii list * (ascii list * (ascii list * ascii list)) list) list) list) : Stdlib.String.t =
+let enc_fmap (fm : (ascii list * (ascii list * (ascii list * (ascii list * ascii list option)) list) list) list) : Stdlib.String.t =
   String.concat "|" (List.map (fun (f, pm) ->
     enc_str f ^ ":" ^ String.concat ";" (List.map (fun (p, vm) ->
       enc_str p ^ "=" ^ String.concat "," (List.map (fun (v, (q, w)) ->
-        enc_str v ^ ">" ^ enc_str q ^ ">" ^ enc_str w) vm)) pm)) fm)
+        enc_str v ^ ">" ^ enc_str q ^ ">" ^ enc_opt w) vm)) pm)) fm)
 let enc_mapping (m : mapping) : Stdlib.String.t = enc_fmap m.mp_map ^ "\t" ^ enc_fmap m.mp_nore
+let enc_row (r : row) : Stdlib.String.t =
+  String.concat "," [enc_str r.r_inP; enc_str r.r_inV; enc_opt r.r_outP; enc_opt r.r_outV; enc_str r.r_fl]
+let enc_rows (l : row list) : Stdlib.String.t = String.concat "|" (List.map enc_row l)
+let dec_texts (s : Stdlib.String.t) : ascii list list = dec_strlist '|' s
 
 (* tag list entries: p,f,v,extras(;) separated by | *)
 let dec_tlentries (s : Stdlib.String.t) =
@@ -97,10 +101,45 @@ let handle (f : Stdlib.String.t array) : Stdlib.String.t =
     (* fx rows flavor deps *)
     "ok\t" ^ enc_deps (remap (bool_of_field f.(1)) (m_of_rows (dec_rows f.(2))) (dec_str f.(3)) (dec_cdeps (bool_of_field f.(1)) f.(4)))
   | "remapspec" ->
-    (* rows flavor deps -> what the rows say, and the per-entry side condition *)
+    (* rows flavor deps -> what the rows say *)
     let rows = dec_rows f.(1) and fl = dec_str f.(2) and ds = dec_cdeps true f.(3) in
-    "ok\t" ^ enc_deps (spec_remap rows fl ds) ^ "\t" ^
-    String.concat "," (List.map (fun d -> field_of_bool (entry_ok rows fl d.d_product d.d_version)) ds)
+    "ok\t" ^ enc_deps (spec_remap rows fl ds)
+  | "merge" ->
+    (* rows of self, rows of other, overwrite *)
+    "ok\t" ^ enc_mapping (m_merge (m_of_rows (dec_rows f.(1))) (m_of_rows (dec_rows f.(2))) (bool_of_field f.(3)))
+  | "remaprows" ->
+    (* mode texts -> the rows the files name *)
+    (match files_rows (dec_opt f.(1)) (dec_texts f.(2)) with
+     | Ok rows -> "ok\t" ^ enc_rows rows
+     | Err k -> show_err k)
+  | "readremap" ->
+    (* overwrite mode text *)
+    (match read_remap (bool_of_field f.(1)) (dec_opt f.(2)) (dec_str f.(3)) empty_mapping with
+     | Ok m -> "ok\t" ^ enc_mapping m
+     | Err k -> show_err k)
+  | "remapentries" ->
+    (* extra rows, texts, mode, flavor, deps -> the mapping left in the manifest, the entries *)
+    (match remap_entries true (m_of_rows (dec_rows f.(1))) (dec_texts f.(2)) (dec_opt f.(3)) (dec_str f.(4))
+             (dec_cdeps true f.(5)) with
+     | Ok (m, ds) -> "ok\t" ^ enc_mapping m ^ "\t" ^ enc_deps ds
+     | Err k -> show_err k)
+  | "declares" ->
+    (* extra rows, texts, mode, flavor, known products, deps -> products declared with version dummy *)
+    (match remap_entries true (m_of_rows (dec_rows f.(1))) (dec_texts f.(2)) (dec_opt f.(3)) (dec_str f.(4))
+             (dec_cdeps true f.(6)) with
+     | Ok (m, _) -> "ok\t" ^ enc_strlist ',' (remap_declares m (dec_str f.(4)) (dec_strlist ',' f.(5)) (dec_cdeps true f.(6)))
+     | Err k -> show_err k)
+  | "print" ->
+    (* rows -> Mapping.__str__, and whether the table is one the reader reads back *)
+    let m = m_of_rows (dec_rows f.(1)) in
+    "ok\t" ^ enc_str (m_print m) ^ "\t" ^ field_of_bool (wf_table m)
+  | "norein" ->
+    (* rows flavor queries(p,v;...) *)
+    let m = m_of_rows (dec_rows f.(1)) and fl = dec_str f.(2) in
+    "ok\t" ^ String.concat "," (List.map (fun q ->
+      match String.split_on_char ',' q with
+      | [p; v] -> field_of_bool (m_noreinstall m (dec_str p) (dec_str v) fl)
+      | _ -> failwith "bad query") (split_sep ';' f.(3)))
   | "undo" ->
     (* rows flavor p v: apply, then apply the inverse *)
     let m = m_of_rows (dec_rows f.(1)) and fl = dec_str f.(2) in
